@@ -41,29 +41,39 @@ Query == 1..MaxQ
 (*   s      what the value consists of: chunk/pad: its own id; reg: ids of *)
 (*          its operations; txn: ids of its transactions                   *)
 (*   cnt    scratchpad counter                                             *)
+(*   b      reg: which base register (owner, name, permissions) it is a    *)
+(*          version of; pad: whose scratchpad it is.  1 = the register /   *)
+(*          scratchpad ADDRESSED BY THE REQUESTED KEY, 2 = another one (a  *)
+(*          valid record, but of a foreign address); 0 for other kinds.    *)
 (***************************************************************************)
-Ct(kind, ok, s, cnt) == [kind |-> kind, ok |-> ok, s |-> s, cnt |-> cnt]
+Ct(kind, ok, s, cnt, b) == [kind |-> kind, ok |-> ok, s |-> s, cnt |-> cnt, b |-> b]
 Content == <<
-    Ct("chunk", TRUE, {1}, 0),        \*  1  C1
-    Ct("chunk", TRUE, {2}, 0),        \*  2  C2
-    Ct("chunk", TRUE, {3}, 0),        \*  3  C3
-    Ct("reg",   TRUE, {1}, 0),        \*  4  R1  ops {1}
-    Ct("reg",   TRUE, {2}, 0),        \*  5  R2  ops {2}
-    Ct("reg",   TRUE, {1, 3}, 0),     \*  6  R3  ops {1,3}
-    Ct("reg",   FALSE, {4}, 0),       \*  7  R4  ops {4}, base register not signed by its owner
-    Ct("pad",   TRUE, {8}, 1),        \*  8  P1  counter 1
-    Ct("pad",   TRUE, {9}, 2),        \*  9  P2  counter 2
-    Ct("pad",   TRUE, {10}, 3),       \* 10  P3  counter 3
-    Ct("pad",   TRUE, {11}, 3),       \* 11  P4  counter 3, other payload
-    Ct("pad",   FALSE, {12}, 4),      \* 12  P5  counter 4, signed with a foreign key
-    Ct("txn",   TRUE, {1}, 0),        \* 13  T1  [t1]
-    Ct("txn",   TRUE, {2}, 0),        \* 14  T2  [t2]
-    Ct("txn",   TRUE, {1, 2}, 0),     \* 15  T3  [t1,t2]
-    Ct("txn",   TRUE, {1}, 0),        \* 16  T4  [t1,t1]  (other bytes, same set)
-    Ct("txn",   FALSE, {}, 0),        \* 17  T5  transaction header, undecodable body
-    Ct("junk",  FALSE, {}, 0) >>      \* 18  J1  no record header
+    Ct("chunk", TRUE, {1}, 0, 0),     \*  1  C1
+    Ct("chunk", TRUE, {2}, 0, 0),     \*  2  C2
+    Ct("chunk", TRUE, {3}, 0, 0),     \*  3  C3
+    Ct("reg",   TRUE, {1}, 0, 1),     \*  4  R1  ops {1}
+    Ct("reg",   TRUE, {2}, 0, 1),     \*  5  R2  ops {2}
+    Ct("reg",   TRUE, {1, 3}, 0, 1),  \*  6  R3  ops {1,3}
+    Ct("reg",   FALSE, {4}, 0, 1),    \*  7  R4  ops {4}, base register not signed by its owner
+    Ct("pad",   TRUE, {8}, 1, 1),     \*  8  P1  counter 1
+    Ct("pad",   TRUE, {9}, 2, 1),     \*  9  P2  counter 2
+    Ct("pad",   TRUE, {10}, 3, 1),    \* 10  P3  counter 3
+    Ct("pad",   TRUE, {11}, 3, 1),    \* 11  P4  counter 3, other payload
+    Ct("pad",   FALSE, {12}, 4, 1),   \* 12  P5  counter 4, signed with a foreign key
+    Ct("txn",   TRUE, {1}, 0, 0),     \* 13  T1  [t1]
+    Ct("txn",   TRUE, {2}, 0, 0),     \* 14  T2  [t2]
+    Ct("txn",   TRUE, {1, 2}, 0, 0),  \* 15  T3  [t1,t2]
+    Ct("txn",   TRUE, {1}, 0, 0),     \* 16  T4  [t1,t1]  (other bytes, same set)
+    Ct("txn",   FALSE, {}, 0, 0),     \* 17  T5  transaction header, undecodable body
+    Ct("junk",  FALSE, {}, 0, 0),     \* 18  J1  no record header
+    Ct("reg",   TRUE, {1}, 0, 1),     \* 19  R1' the register R1 (same base, same ops) serialised to other bytes
+    Ct("reg",   TRUE, {5}, 0, 2),     \* 20  R6  ops {5}: a valid register with ANOTHER base (other owner, name, permissions)
+    Ct("pad",   TRUE, {21}, 5, 2) >>  \* 21  P6  counter 5: a validly signed scratchpad of a FOREIGN owner
 CId == 1..Len(Content)
-Val(c) == [k |-> Content[c].kind, s |-> Content[c].s]
+Foreign == {c \in CId : Content[c].b = 2}
+\* the items of a value as a multiset (sorted sequence); only T4 lists an item twice
+SortedSeq(S) == SetToSortSeq(S, LAMBDA a, b : a < b)
+CM(c) == IF c = 16 THEN <<1, 1>> ELSE SortedSeq(Content[c].s)
 Mergeable == {"reg", "pad", "txn"}
 
 Quorums == {"One", "N2", "N4", "Maj", "All"}
@@ -78,18 +88,24 @@ QV(qm) == CASE qm = "One" -> 1
 (* Outcomes as a caller sees them (uniform record shape).                  *)
 (*   kind "Ok"     cid = id of the universe content the returned bytes are *)
 (*                 identical to (0: none), k = key field of the returned   *)
-(*                 record, vk/vs = the returned value decoded              *)
+(*                 record, vk/vs = the returned value decoded, vb = the    *)
+(*                 base / owner of a returned register / scratchpad, vm =  *)
+(*                 its items as a multiset (sorted sequence WITH repeats), *)
+(*                 h = hash of the returned bytes ("" in the model)        *)
 (*   kind "Split"  vs = ids of the versions carried, k = their common key  *)
 (*                 field (0 if they differ)                                *)
 (*   kind "Err"    e = error variant                                       *)
 (*   kind "Dropped" the channel was closed without an outcome              *)
 (***************************************************************************)
-OkC(c, k) == [kind |-> "Ok", e |-> "", cid |-> c, k |-> k, vk |-> Content[c].kind, vs |-> Content[c].s]
-OkM(vk, vs, k) == [kind |-> "Ok", e |-> "", cid |-> 0, k |-> k, vk |-> vk, vs |-> vs]
-SplitO(S, k) == [kind |-> "Split", e |-> "", cid |-> 0, k |-> k, vk |-> "", vs |-> S]
-ErrO(e) == [kind |-> "Err", e |-> e, cid |-> 0, k |-> 0, vk |-> "", vs |-> {}]
-\* model prediction m against observation o (a merged value may or may not coincide with a universe content)
+OkC(c, k) == [kind |-> "Ok", e |-> "", cid |-> c, k |-> k, vk |-> Content[c].kind, vs |-> Content[c].s,
+              vb |-> Content[c].b, vm |-> CM(c), h |-> ""]
+OkM(vk, vs, k, b) == [kind |-> "Ok", e |-> "", cid |-> 0, k |-> k, vk |-> vk, vs |-> vs, vb |-> b, vm |-> SortedSeq(vs), h |-> ""]
+SplitO(S, k) == [kind |-> "Split", e |-> "", cid |-> 0, k |-> k, vk |-> "", vs |-> S, vb |-> 0, vm |-> <<>>, h |-> ""]
+ErrO(e) == [kind |-> "Err", e |-> e, cid |-> 0, k |-> 0, vk |-> "", vs |-> {}, vb |-> 0, vm |-> <<>>, h |-> ""]
+\* model prediction m against observation o (a merged value may or may not coincide with a universe content;
+\* the model does not predict byte hashes)
 SameOutcome(m, o) == /\ m.kind = o.kind /\ m.e = o.e /\ m.k = o.k /\ m.vk = o.vk /\ m.vs = o.vs
+                     /\ m.vb = o.vb /\ m.vm = o.vm
                      /\ (m.cid = 0 \/ m.cid = o.cid)
 
 (***************************************************************************)
@@ -107,15 +123,27 @@ Deliver(Q, o) == {[caller |-> Q.callers[i], o |-> o] : i \in 1..Len(Q.callers)}
 Close(s, q) == [s EXCEPT !.qs[q] = [@ EXCEPT !.live = FALSE, !.callers = <<>>, !.rm = NoRm]]
 
 \* ----------------------------------------------------------- cmd.rs GetNetworkRecord
-\* A caller joins a pending read of the same key only when it asks for the same quorum and the same
-\* expected value; otherwise a query of its own is started.
-Call(s, cl, key, qm, tg) ==
-    LET J == {i \in Live(s) : s.qs[i].key = key /\ s.qs[i].quorum = qm /\ s.qs[i].target = tg}
+\* A caller joins a pending read of the same key only when it asks for the same quorum, the same
+\* expected value and the same way of comparing it (is_register); otherwise a query of its own is
+\* started.  The expected holders (eh) are only logged: they neither separate queries nor change outcomes.
+Call(s, cl, key, qm, tg, ir) ==
+    LET J == {i \in Live(s) : s.qs[i].key = key /\ s.qs[i].quorum = qm /\ s.qs[i].target = tg /\ s.qs[i].isreg = ir}
     IN IF J # {} THEN {Res([s EXCEPT !.qs[i].callers = Append(@, cl)], {}, i, "Ok") : i \in J}
        ELSE IF Len(s.qs) >= MaxQ THEN {}
-       ELSE {Res([s EXCEPT !.qs = Append(@, [live |-> TRUE, key |-> key, quorum |-> qm, target |-> tg,
+       ELSE {Res([s EXCEPT !.qs = Append(@, [live |-> TRUE, key |-> key, quorum |-> qm, target |-> tg, isreg |-> ir,
                                               callers |-> <<cl>>, rm |-> NoRm])],
                  {}, Len(s.qs) + 1, "Ok")}
+
+\* A caller gives up: it drops its receiving end.  Nothing is told to the driver; the model is the one of
+\* the INTENDED behaviour: the caller no longer takes part in any delivery, the others are unaffected.
+Cancel(s, cl) ==
+    {Res([s EXCEPT !.qs = [i \in DOMAIN s.qs |-> [s.qs[i] EXCEPT !.callers = SelectSeq(@, LAMBDA c : c # cl)]]], {}, 0, "Ok")}
+
+\* driver.rs does_target_match: byte equality, or (is_register) both decode as registers with the same
+\* base register and the same operations
+RegSame(a, c) == /\ Content[a].kind = "reg" /\ Content[c].kind = "reg"
+                 /\ Content[a].b = Content[c].b /\ Content[a].s = Content[c].s
+TMatch(Q, c) == Q.target = 0 \/ (IF Q.isreg THEN RegSame(Q.target, c) ELSE Q.target = c)
 
 \* ----------------------------------------------------------- kad.rs accumulate_get_record_found
 TxsOf(S) == UNION {Content[d].s : d \in {e \in S : Content[e].kind = "txn" /\ Content[e].ok}}
@@ -129,8 +157,8 @@ Found(s, q, p, c, k) ==
               ELSE LET vers == {d \in CId : rm2[d] # {}}
                        txs == TxsOf(vers)
                        o == IF Cardinality(vers) = 1
-                            THEN (IF Q.target = 0 \/ Q.target = c THEN OkC(c, k) ELSE ErrO("RecordDoesNotMatch"))
-                            ELSE IF txs # {} THEN OkM("txn", txs, k)
+                            THEN (IF TMatch(Q, c) THEN OkC(c, k) ELSE ErrO("RecordDoesNotMatch"))
+                            ELSE IF txs # {} THEN OkM("txn", txs, k, 0)
                             ELSE SplitO(vers, k)
                    IN {Res(Close(s, q), Deliver(Q, o), 0, "Ok")}
 
@@ -156,28 +184,32 @@ Timeout(s, q) ==
              c1 == CHOOSE c \in vers : TRUE
              o == IF Cardinality(vers) > 1 THEN ErrO("QueryTimeout")
                   ELSE IF vers # {} /\ Cardinality(Q.rm[c1]) >= QV(Q.quorum)
-                       THEN (IF Q.target = 0 \/ Q.target = c1 THEN OkC(c1, Q.key) ELSE ErrO("RecordDoesNotMatch"))
+                       THEN (IF TMatch(Q, c1) THEN OkC(c1, Q.key) ELSE ErrO("RecordDoesNotMatch"))
                   ELSE ErrO("QueryTimeout")
          IN {Res(Close(s, q), Deliver(Q, o), 0, "Ok")}
 
 \* ----------------------------------------------------------- lib.rs handle_split_record_error
 \* `it` = the versions in the order the result map iterates.  The first record with a parsable header
 \* dictates the kind; records of another kind are skipped.  "None" = no merge, the split error stays.
-NoMerge == [kind |-> "None", e |-> "", cid |-> 0, k |-> 0, vk |-> "", vs |-> {}]
+NoMerge == [kind |-> "None", e |-> "", cid |-> 0, k |-> 0, vk |-> "", vs |-> {}, vb |-> 0, vm |-> <<>>, h |-> ""]
 HandleSplit(it, key) ==
     LET hdr == SelectSeq(it, LAMBDA c : Content[c].kind # "junk") IN
     IF hdr = <<>> THEN NoMerge ELSE
     LET kd == Content[hdr[1]].kind
         same == SelectSeq(hdr, LAMBDA c : Content[c].kind = kd)
-        good == {same[i] : i \in {j \in 1..Len(same) : Content[same[j]].ok}}
+        goodseq == SelectSeq(same, LAMBDA c : Content[c].ok)
+        good == ToSet(goodseq)
         u == UNION {Content[c].s : c \in good}
+        \* registers: the first verified one is the accumulator; one with another base fails to merge into it
+        rb == IF goodseq = <<>> THEN 0 ELSE Content[goodseq[1]].b
+        ru == UNION {Content[c].s : c \in {d \in good : Content[d].b = rb}}
         \* the first valid scratchpad with the highest counter wins
         best == FoldLeft(LAMBDA acc, c : IF ~Content[c].ok THEN acc
                                          ELSE IF acc = 0 THEN c
                                          ELSE IF Content[acc].cnt >= Content[c].cnt THEN acc ELSE c, 0, same)
-    IN CASE kd = "txn" -> IF Cardinality(u) > 1 THEN OkM("txn", u, key) ELSE NoMerge
-         [] kd = "reg" -> IF good = {} THEN NoMerge ELSE OkM("reg", u, key)
-         [] kd = "pad" -> IF best = 0 THEN NoMerge ELSE OkM("pad", {best}, key)
+    IN CASE kd = "txn" -> IF Cardinality(u) > 1 THEN OkM("txn", u, key, 0) ELSE NoMerge
+         [] kd = "reg" -> IF good = {} THEN NoMerge ELSE OkM("reg", ru, key, rb)
+         [] kd = "pad" -> IF best = 0 THEN NoMerge ELSE OkM("pad", {best}, key, Content[best].b)
          [] OTHER -> NoMerge
 
 \* get_record_from_network when the network layer answers a split with versions iterating as `it`
@@ -198,9 +230,12 @@ ClientGet(ans, att, key, i) ==
 
 (***************************************************************************)
 (* A step x (model or observed):                                           *)
-(*   ev      "Call" | "Found" | "Finished" | "NotFound" | "QuorumFailed" | *)
-(*           "Timeout" | "SplitCase" | "ClientRetry"                       *)
-(*   Call:   caller, key, quorum, target;  att = query it now waits on     *)
+(*   ev      "Call" | "Cancel" | "Found" | "Finished" | "NotFound" |       *)
+(*           "QuorumFailed" | "Timeout" | "SplitCase" | "ClientRetry"      *)
+(*   Call:   caller, key, quorum, target, isreg (compare the expected      *)
+(*           value as a register), eh (expected holders: 0 none, 1 peers   *)
+(*           {1,2}, 2 peers {7,8});  att = query it now waits on           *)
+(*   Cancel: caller (it drops its receiving end)                           *)
 (*   reply/terminating events: q, and for Found p, c, k (key field of the  *)
 (*           record the peer returned)                                     *)
 (*   dl      outcomes delivered in this step: set of [caller, o]           *)
@@ -208,24 +243,28 @@ ClientGet(ans, att, key, i) ==
 (*   g, g2   ghost history before / after                                  *)
 (*   SplitCase:   key, target, vs (set of versions), runs = sequence of    *)
 (*           [it, o]: result of get_record_from_network when the result    *)
-(*           map iterates in order it                                      *)
+(*           map iterates in order it; txnbytes = the byte comparison of   *)
+(*           merged transaction records is switched on                     *)
 (*   ClientRetry: key, ans, natt, o, used                                  *)
 (***************************************************************************)
 TermEv == {"Finished", "NotFound", "QuorumFailed", "Timeout"}
 ErrEv == {"NotFound", "QuorumFailed", "Timeout"}
-KadEv == TermEv \cup {"Call", "Found"}
+KadEv == TermEv \cup {"Call", "Found", "Cancel"}
 
-NoCfg == [key |-> 0, quorum |-> "One", target |-> 0]
+NoCfg == [key |-> 0, quorum |-> "One", target |-> 0, isreg |-> FALSE, eh |-> 0]
 Ghost0 == [cfg |-> [c \in Caller |-> NoCfg],        \* what each caller asked for
            qOf |-> [c \in Caller |-> 0],            \* the query it waits on (0: none)
            called |-> {},
+           cancelled |-> {},                        \* callers that gave up before they had an outcome
            replies |-> [q \in Query |-> {}],        \* [p, c, k] returned by peers, per query
            got |-> {}]                              \* callers that have received an outcome
 GhostNext(g, x) ==
-    [cfg |-> IF x.ev = "Call" THEN [g.cfg EXCEPT ![x.caller] = [key |-> x.key, quorum |-> x.quorum, target |-> x.target]]
+    [cfg |-> IF x.ev = "Call" THEN [g.cfg EXCEPT ![x.caller] = [key |-> x.key, quorum |-> x.quorum, target |-> x.target,
+                                                                 isreg |-> x.isreg, eh |-> x.eh]]
              ELSE g.cfg,
      qOf |-> IF x.ev = "Call" THEN [g.qOf EXCEPT ![x.caller] = x.att] ELSE g.qOf,
      called |-> IF x.ev = "Call" THEN g.called \cup {x.caller} ELSE g.called,
+     cancelled |-> IF x.ev = "Cancel" /\ x.caller \in g.called \ g.got THEN g.cancelled \cup {x.caller} ELSE g.cancelled,
      replies |-> IF x.ev = "Found" /\ x.q \in Query
                  THEN [g.replies EXCEPT ![x.q] = @ \cup {[p |-> x.p, c |-> x.c, k |-> x.k]}]
                  ELSE g.replies,
@@ -238,18 +277,30 @@ Agree(g, q, v, key) == IF q \in Query THEN {r.p : r \in {y \in g.replies[q] : y.
 Versions(g, q, key) == IF q \in Query THEN {r.c : r \in {y \in g.replies[q] : y.k = key}} ELSE {}
 
 \* the deterministic merges the statement names; versions that are not valid records of the kind do not
-\* contribute.  A SET of acceptable values: empty when the kind has no valid version; several scratchpads
+\* contribute, and neither do versions of ANOTHER register / of a foreign owner's scratchpad: the read is
+\* "for the requested key", which addresses one register (owner, name) resp. one owner's scratchpad, so a
+\* record of another address, however validly signed, is not a version of what was asked for.
+\* A SET of acceptable values: empty when the kind has no valid version; several scratchpads
 \* when valid ones share the highest counter (the statement does not rank them).
-RegMerge(S) == LET ok == {c \in S : Content[c].kind = "reg" /\ Content[c].ok}
-               IN IF ok = {} THEN {} ELSE {[k |-> "reg", s |-> UNION {Content[c].s : c \in ok}]}
-PadTop(S) == LET ok == {c \in S : Content[c].kind = "pad" /\ Content[c].ok}
+RegMerge(S) == LET ok == {c \in S : Content[c].kind = "reg" /\ Content[c].ok /\ Content[c].b = 1}
+               IN IF ok = {} THEN {} ELSE {[k |-> "reg", s |-> UNION {Content[c].s : c \in ok}, b |-> 1]}
+PadTop(S) == LET ok == {c \in S : Content[c].kind = "pad" /\ Content[c].ok /\ Content[c].b = 1}
              IN {c \in ok : \A d \in ok : Content[d].cnt <= Content[c].cnt}
-PadMerge(S) == {[k |-> "pad", s |-> {c}] : c \in PadTop(S)}
+PadMerge(S) == {[k |-> "pad", s |-> {c}, b |-> 1] : c \in PadTop(S)}
 TxnMerge(S) == LET ok == {c \in S : Content[c].kind = "txn" /\ Content[c].ok}
-               IN IF ok = {} THEN {} ELSE {[k |-> "txn", s |-> UNION {Content[c].s : c \in ok}]}
+               IN IF ok = {} THEN {} ELSE {[k |-> "txn", s |-> UNION {Content[c].s : c \in ok}, b |-> 0]}
 Merges(S) == RegMerge(S) \cup PadMerge(S) \cup TxnMerge(S)
-OVal(o) == [k |-> o.vk, s |-> o.vs]
-IsMergeOf(o, S) == Cardinality(S) >= 2 /\ OVal(o) \in Merges(S)
+OVal(o) == [k |-> o.vk, s |-> o.vs, b |-> o.vb]
+\* a union lists every item once: a merged value that repeats an item is not the union
+NoRepeat(o) == Len(o.vm) = Cardinality(o.vs) /\ ToSet(o.vm) = o.vs
+IsMergeOf(o, S) == Cardinality(S) >= 2 /\ OVal(o) \in Merges(S) /\ NoRepeat(o)
+
+\* "it equals the caller's expected value": the same bytes; for a caller that gave its expected value as a
+\* register (is_register) the same register -- same base, same operations -- whatever its serialisation
+Expected(cfg, o) == IF cfg.isreg
+                    THEN /\ Content[cfg.target].kind = "reg" /\ o.vk = "reg"
+                         /\ o.vb = Content[cfg.target].b /\ o.vs = Content[cfg.target].s /\ NoRepeat(o)
+                    ELSE o.cid = cfg.target
 
 \* Ok(v) to a caller that asked with cfg: the returned record is for the requested key [I8]; at least Q
 \* distinct peers returned byte-identical v for that key, or v is the merge of the differing versions;
@@ -258,7 +309,7 @@ SoundOk(g, q, o, cfg) ==
     /\ o.k = cfg.key
     /\ \/ o.cid # 0 /\ Cardinality(Agree(g, q, o.cid, cfg.key)) >= QV(cfg.quorum)
        \/ IsMergeOf(o, Versions(g, q, cfg.key))
-    /\ cfg.target # 0 => o.cid = cfg.target
+    /\ cfg.target # 0 => Expected(cfg, o)
 
 \* ---- clause witnesses on reply / terminating steps (witness = caller)
 W_QuorumSound_Kad(x) ==
@@ -274,21 +325,31 @@ W_SplitComplete_Kad(x) ==
         \/ y.o.kind = "Ok" /\ Cardinality(vs) >= 2 /\ ~IsMergeOf(y.o, vs)
         \/ y.o.kind = "Err" /\ Cardinality(vs) >= 2 /\ x.ev \notin ErrEv }}
 
-\* every caller exactly one outcome, a value or a specific error, only when its query ends, none left over
+\* every caller exactly one outcome, a value or a specific error, only when its query ends, none left over.
+\* A caller that gave up (Cancel) is owed nothing; every OTHER caller -- also one sharing its query with
+\* callers that gave up -- is still owed its one outcome.
 W_ExactlyOne_Kad(x) ==
        {d.caller : d \in {y \in x.dl : \/ y.caller \in x.g.got                  \* a second outcome
                                         \/ y.o.kind = "Dropped"                 \* neither value nor error
-                                        \/ x.ev = "Call"                        \* before any reply
+                                        \/ x.ev \in {"Call", "Cancel"}          \* before any reply / out of the blue
                                         \/ x.g2.qOf[y.caller] # x.q             \* on another query's event
                                         \/ x.q \in x.pq }}                      \* while its query goes on
-  \cup {c \in x.g2.called : /\ c \notin x.g2.got                                \* left without an outcome:
+  \cup {c \in x.g2.called \ x.g2.cancelled :
+                            /\ c \notin x.g2.got                                \* left without an outcome:
                             /\ \/ x.g2.qOf[c] \notin x.pq                       \*   its query is gone
                                \/ (x.ev \in TermEv /\ x.g2.qOf[c] = x.q) }      \*   or was just terminated
 
 \* ---- clause witnesses on client-side steps (witness = run index, 0 for the whole case)
-OutcomeEq(a, b) == a.kind = b.kind /\ a.e = b.e /\ a.vk = b.vk /\ a.vs = b.vs /\ a.k = b.k
+OutcomeEq(a, b) == /\ a.kind = b.kind /\ a.e = b.e /\ a.vk = b.vk /\ a.vs = b.vs /\ a.k = b.k
+                   /\ a.vb = b.vb /\ a.vm = b.vm
+\* The merge is a function of the set of versions: the same record -- the same BYTES, the statement counts
+\* agreement in byte-identical content -- whatever the order the versions are iterated in.
+\* (txnbytes: whether the byte comparison is applied to merged transaction records too.)
+BytesEq(a, b, txnbytes) == (a.kind = "Ok" /\ (a.vk # "txn" \/ txnbytes)) => a.h = b.h
 W_MergeDeterministic(x) ==
-    IF x.ev = "SplitCase" /\ \E i, j \in 1..Len(x.runs) : ~OutcomeEq(x.runs[i].o, x.runs[j].o) THEN {0} ELSE {}
+    IF x.ev = "SplitCase" /\ \E i, j \in 1..Len(x.runs) : \/ ~OutcomeEq(x.runs[i].o, x.runs[j].o)
+                                                          \/ ~BytesEq(x.runs[i].o, x.runs[j].o, x.txnbytes)
+    THEN {0} ELSE {}
 SoundMerge(o, S, key, tg) == /\ o.k = key /\ IsMergeOf(o, S) /\ (tg # 0 => o.cid = tg)
 W_QuorumSound_Client(x) ==
     IF x.ev = "SplitCase"
@@ -339,7 +400,7 @@ KF_C05_1(c, x, w) ==
     /\ IF x.ev \in KadEv
        THEN \E d \in x.dl : /\ d.caller = w /\ d.o.kind = "Ok"
                             /\ LET cfg == x.g2.cfg[w] IN
-                               /\ cfg.target # 0 /\ d.o.cid # cfg.target
+                               /\ cfg.target # 0 /\ ~Expected(cfg, d.o)
                                /\ SoundOk(x.g2, x.g2.qOf[w], d.o, [cfg EXCEPT !.target = 0])
                                /\ IsMergeOf(d.o, Versions(x.g2, x.g2.qOf[w], cfg.key))
        ELSE /\ x.ev = "SplitCase" /\ w \in 1..Len(x.runs) /\ x.target # 0
@@ -351,6 +412,9 @@ KF_C05_1(c, x, w) ==
 RunsAllowed(x) == \A i \in 1..Len(x.runs) : LET o == x.runs[i].o IN
                      \/ o.kind = "Ok" /\ SoundMerge(o, x.vs, x.key, 0)
                      \/ o.kind = "Split" /\ o.vs = x.vs /\ o.k = x.key
+\* (the known findings below are about WHICH value is returned: runs returning the same value return the same bytes)
+SameValueSameBytes(x) == \A i, j \in 1..Len(x.runs) :
+                            OutcomeEq(x.runs[i].o, x.runs[j].o) => BytesEq(x.runs[i].o, x.runs[j].o, x.txnbytes)
 HeaderKinds(S) == {Content[c].kind : c \in {d \in S : Content[d].kind # "junk"}}
 
 \* C05-mixed-kinds-first-record-dictates: with versions of different record kinds the first record the
@@ -359,6 +423,7 @@ HeaderKinds(S) == {Content[c].kind : c \in {d \in S : Content[d].kind # "junk"}}
 KF_C05_2(c, x, w) == /\ c = "C05_MergeDeterministic" /\ x.ev = "SplitCase"
                      /\ Cardinality(HeaderKinds(x.vs)) >= 2
                      /\ RunsAllowed(x)
+                     /\ SameValueSameBytes(x)
 
 \* C05-equal-counter-scratchpad-first-wins: among validly signed scratchpads sharing the highest counter
 \* with different payloads the first one iterated wins (old.count() >= new.count()).  Only: one header
@@ -369,6 +434,7 @@ KF_C05_3(c, x, w) == /\ c = "C05_MergeDeterministic" /\ x.ev = "SplitCase"
                      /\ \A i \in 1..Len(x.runs) : x.runs[i].o.kind = "Ok" /\ x.runs[i].o.vk = "pad"
                                                   /\ x.runs[i].o.vs \subseteq PadTop(x.vs)
                                                   /\ Cardinality(x.runs[i].o.vs) = 1 /\ x.runs[i].o.k = x.key
+                     /\ SameValueSameBytes(x)
 
 KFMatch(c, x, w) == IF KF_C05_1(c, x, w) THEN "C05-merge-bypasses-target"
                     ELSE IF KF_C05_2(c, x, w) THEN "C05-mixed-kinds-first-record-dictates"
@@ -380,7 +446,8 @@ Verdicts(x) == UNION {{[clause |-> c, w |-> w, kf |-> KFMatch(c, x, w)] : w \in 
 
 \* the results the model allows for a reply / terminating step (drift predicate on implementation traces)
 ModelResults(x) ==
-    CASE x.ev = "Call"         -> Call(x.s, x.caller, x.key, x.quorum, x.target)
+    CASE x.ev = "Call"         -> Call(x.s, x.caller, x.key, x.quorum, x.target, x.isreg)
+      [] x.ev = "Cancel"       -> Cancel(x.s, x.caller)
       [] x.ev = "Found"        -> Found(x.s, x.q, x.p, x.c, x.k)
       [] x.ev = "Finished"     -> Finished(x.s, x.q)
       [] x.ev = "NotFound"     -> NotFoundOrQuorumFailed(x.s, x.q)
